@@ -810,15 +810,19 @@ impl<'a> ArxmlParser<'a> {
                         regex: (*regex).to_string(),
                     })?;
                 }
-                // text with regex pattern validation doesn't need unescaping - none of the regexes will allow any of the the escaped chars
-                match std::str::from_utf8(trimmed_input) {
-                    Ok(utf8string) => Ok(CharacterData::String(utf8string.to_owned())),
+                // most regexes don't allow any of the escaped chars, but some do (e.g. the ".*" in REVISION-LABEL):
+                // the stored value must be unescaped, since it is escaped again when the data is serialized
+                let text = match std::str::from_utf8(trimmed_input) {
+                    Ok(utf8string) => Cow::from(utf8string),
                     Err(err) => {
                         self.optional_error(ArxmlParserError::Utf8Error { source: err })?;
-                        Ok(CharacterData::String(
-                            String::from_utf8_lossy(trimmed_input).into_owned(),
-                        ))
+                        String::from_utf8_lossy(trimmed_input)
                     }
+                };
+                if text.contains('&') {
+                    Ok(CharacterData::String(self.unescape_string(&text)?.into_owned()))
+                } else {
+                    Ok(CharacterData::String(text.into_owned()))
                 }
             }
             CharacterDataSpec::String {
